@@ -592,6 +592,14 @@ def gen_powell_case(rng, tier):
         sc = rng.choice([1.0, 2.0, 4.0])
         e = ("sum",) + tuple(("sq", ("rint", ("*", ("c", sc), ("-", ("x", i), ("c", cs[i]))))) for i in range(dim))
         x0 = [dyadic(rng, -4, 4, 4) for _ in range(dim)]
+        if dim >= 2 and rng.random() < 0.5:
+            # integer-valued diagonal valley: equal decreases along different directions AND a useful extrapolation
+            kk = rng.choice([1.0, 2.0, 3.0]); cc = dyadic(rng, -6, 6, 1); ss = rng.choice([1.0, 0.5, 2.0])
+            e = ("sum", ("*", ("c", kk), ("sq", ("rint", ("*", ("c", ss), ("-", ("x", 0), ("x", 1)))))),
+                 ("sq", ("rint", ("-", ("*", ("c", 0.5), ("+", ("x", 0), ("x", 1))), ("c", cc))))) + tuple(
+                     ("sq", ("rint", ("-", ("x", i), ("c", cs[i])))) for i in range(2, dim))
+            a0 = float(rng.randint(-5, 5))
+            x0 = [a0, a0 + rng.choice([0.0, 0.0, 1.0, -1.0])] + [dyadic(rng, -4, 4, 4) for _ in range(2, dim)]
     elif k < 0.32:      # exchange-symmetric: equal decreases along different directions
         cval = dyadic(rng, -2, 2, 2); a0 = dyadic(rng, -4, 4, 4)
         kind = rng.choice(["sq", "abs"])
